@@ -4,6 +4,7 @@ import (
 	"encoding/json"
 	"fmt"
 	"math/bits"
+	"slices"
 	"sort"
 	"strings"
 	"sync/atomic"
@@ -193,6 +194,20 @@ func (e *c09Env) checkScope(r *vcore.Run, s ociauth.Scope, want uint32, route st
 			if calls != k {
 				r.Violate("unary", "C09/Iter/early-stop", c, fmt.Sprintf("%d calls", k), fmt.Sprintf("%d calls", calls))
 			}
+		}
+		// one iterator value run three times (fully, abandoned after one element, fully): an iterator value
+		// describes the set, it is not a cursor over it
+		it := s.Iter()
+		var pass [3][]rs
+		for p := 0; p < 3; p++ {
+			p := p
+			it(func(x rs) bool {
+				pass[p] = append(pass[p], x)
+				return p != 1
+			})
+		}
+		if !slices.Equal(pass[0], pass[2]) || (len(pass[0]) > 0) != (len(pass[1]) == 1) || (len(pass[1]) == 1 && pass[1][0] != pass[0][0]) {
+			r.Violate("unary", "C09/Iter/same-iterator-run-again-differs", c, fmt.Sprintf("%v", pass[0]), fmt.Sprintf("abandoned run %v, third run %v", pass[1], pass[2]))
 		}
 		// print -> parse round trip (claimed for clean fields only)
 		clean := true
